@@ -204,10 +204,13 @@ class Executor(ExprMixin):
                 name = p[3:]
                 if ('fn:' + name) in self.reg.externals:
                     return self.reg.externals['fn:' + name](self, st, args, kwargs, node)
-                if name in self.reg.contracts and not self.concrete:
+                if name in self.reg.contracts and not self.concrete and name not in self.c.inline:
                     return self.call_contract(st, self.reg.contracts[name], args, kwargs, node)
                 if name in self.module_functions:
                     return self.call_closure(st, Closure(self.module_functions[name], {}, name=name), args, kwargs)
+                if name in self.reg.contracts:      # inlined although contracted: take the source the contract names
+                    tnode, _ = source.get_def(self.reg.contracts[name].target)
+                    return self.call_closure(st, Closure(tnode, {}, name=name), args, kwargs)
                 raise NotFormed(f'function {name} has neither contract nor source')
             if p in self.reg.externals:
                 return self.reg.externals[p](self, st, args, kwargs, node)
@@ -811,7 +814,7 @@ class Executor(ExprMixin):
         sub = [(kq, j)]
         if self._is_fresh_const(elem) and not z3.eq(elem, at(src, kq)):
             sub.append((elem, at(R, pos)))
-            elem_fact = z3.BoolVal(True)
+            elem_fact = is_(elem.decl().name(), at(R, pos))      # the fresh element keeps its constructor
         else:
             elem_fact = at(R, pos) == elem
         for f in body_facts:
